@@ -106,3 +106,49 @@ pub fn sleep(d: Duration) {
 pub fn available_parallelism() -> std::io::Result<std::num::NonZeroUsize> {
     Ok(std::num::NonZeroUsize::new(1).unwrap())
 }
+
+/// `std::sync::Barrier` on the engine: the last of `n` arrivals is the leader and releases the rest.
+/// (A std barrier would park the one OS thread that holds the baton.)
+pub struct Barrier {
+    n: usize,
+    state: Mutex<(usize, u64, Vec<engine::Tid>)>, // (arrived, generation, waiters)
+}
+pub struct BarrierWaitResult(bool);
+impl BarrierWaitResult {
+    pub fn is_leader(&self) -> bool {
+        self.0
+    }
+}
+impl Barrier {
+    pub fn new(n: usize) -> Self {
+        Barrier { n, state: Mutex::new((0, 0, Vec::new())) }
+    }
+    pub fn wait(&self) -> BarrierWaitResult {
+        crate::fault::seam_point("barrier-wait");
+        let gen = {
+            let mut s = self.state.lock().unwrap();
+            s.0 += 1;
+            if s.0 >= self.n {
+                s.0 = 0;
+                s.1 += 1;
+                let ws = std::mem::take(&mut s.2);
+                drop(s);
+                engine::log("barrier-release", ws.len() as u64, 0);
+                for w in ws {
+                    engine::wake(w);
+                }
+                engine::maybe_yield();
+                return BarrierWaitResult(true);
+            }
+            s.2.push(engine::my_tid());
+            s.1
+        };
+        engine::log("barrier-wait", gen, 0);
+        loop {
+            engine::block(None, "barrier");
+            if self.state.lock().unwrap().1 != gen {
+                return BarrierWaitResult(false);
+            }
+        }
+    }
+}
